@@ -252,38 +252,46 @@ def one_relational(rnd, acc, api):
             if named:
                 measure['name'] = 'out'
             agg = {'measures': [measure]}
+            fn2 = rnd.choice(['count', 'sum', 'min', 'max', 'average', 'stddev'])
+            two = rnd.random() < 0.5
+            if two:
+                agg['measures'].append({'field': 'm', 'function': fn2, 'name': 'out2'})
             if cats:
                 agg['categories'] = cats
             if via_python:
                 r = bare_script.aggregate_data(copy.deepcopy(numrows), agg)
             else:
                 A = 'objectNew(' + (("'categories', arrayNew(" + ', '.join(lit(x) for x in cats) + '), ') if cats else '') + \
-                    f"'measures', arrayNew(objectNew('field', 'm', 'function', {lit(fn)}" + (", 'name', 'out'" if named else '') + ')))'
+                    f"'measures', arrayNew(objectNew('field', 'm', 'function', {lit(fn)}" + (", 'name', 'out'" if named else '') + ')' + \
+                    (f", objectNew('field', 'm', 'function', {lit(fn2)}, 'name', 'out2')" if two else '') + '))'
                 r, _ = run_script(api, f'dd = {tbl_lit(numrows)}\nreturn dataAggregate(dd, {A})')
             acc.case((kind, tbl_lit(numrows), fn, tuple(cats), named), len(rows) >= 2)
             if not isinstance(r, list):
                 fail('failed', f'dataAggregate({agg}) over {numrows!r:.300} = {r!r}')
                 return
             out = 'out' if named else 'm'
+            def measure_of(f, vals):
+                if not vals:
+                    return None
+                if f == 'count':
+                    return len(vals)
+                if f == 'sum':
+                    return math.fsum(vals)
+                if f == 'min':
+                    return min(vals)
+                if f == 'max':
+                    return max(vals)
+                if f == 'average':
+                    return math.fsum(vals) / len(vals)
+                mu = math.fsum(vals) / len(vals)
+                return math.sqrt(math.fsum((x - mu) ** 2 for x in vals) / len(vals))
             exp = []
             for key, g in groups_of(numrows, cats):
                 vals = [x['m'] for x in g if x.get('m') is not None]
-                if not vals:
-                    v = None
-                elif fn == 'count':
-                    v = len(vals)
-                elif fn == 'sum':
-                    v = math.fsum(vals)
-                elif fn == 'min':
-                    v = min(vals)
-                elif fn == 'max':
-                    v = max(vals)
-                elif fn == 'average':
-                    v = math.fsum(vals) / len(vals)
-                else:
-                    mu = math.fsum(vals) / len(vals)
-                    v = math.sqrt(math.fsum((x - mu) ** 2 for x in vals) / len(vals))
-                exp.append({**dict(zip(cats, key)), out: v})
+                row = {**dict(zip(cats, key)), out: measure_of(fn, vals)}
+                if two:
+                    row['out2'] = measure_of(fn2, vals)
+                exp.append(row)
             if len(r) != len(exp):
                 fail('partition', f'{len(r)} aggregate rows, expected {len(exp)}: {r!r:.300} vs {exp!r:.300}')
                 return
